@@ -21,6 +21,7 @@ import (
 	"fmt"
 	"go/types"
 	"math/big"
+	"strings"
 
 	"golang.org/x/tools/go/ssa"
 )
@@ -79,7 +80,8 @@ type bufView struct {
 func (v *Verifier) bufNote() {
 	v.env.noteMapType(gBufR, types.Typ[types.Int], "field")
 	v.env.noteMapType(gBufW, types.Typ[types.Int], "field")
-	v.env.noteMapType(gBufD, types.Typ[types.Uint8], "elem")
+	// G!bufdata is deliberately not registered as a typed map: the range 0..255 of a byte is assumed
+	// where a byte is read (binary.Read, Buffer.Read), not for every position a contract mentions
 }
 
 func (v *Verifier) bufGet(st *State, ref string) bufView {
@@ -93,11 +95,20 @@ func (v *Verifier) bufGet(st *State, ref string) bufView {
 	return b
 }
 
+// named gives a compound position term a name (positions are referred to many times).
+func (v *Verifier) named(st *State, hint, t string) string {
+	if !strings.HasPrefix(t, "(") {
+		return t
+	}
+	c := v.env.ctx.freshConst(hint, "Int")
+	st.assume(eq(c, t))
+	return c
+}
 func (v *Verifier) bufSetR(st *State, ref, r string) {
-	v.env.heapSet(st, gBufR, srtII, sto(v.env.heapGet(st, gBufR, srtII), ref, r))
+	v.env.heapSet(st, gBufR, srtII, sto(v.env.heapGet(st, gBufR, srtII), ref, v.named(st, "bufr", r)))
 }
 func (v *Verifier) bufSetW(st *State, ref, w string) {
-	v.env.heapSet(st, gBufW, srtII, sto(v.env.heapGet(st, gBufW, srtII), ref, w))
+	v.env.heapSet(st, gBufW, srtII, sto(v.env.heapGet(st, gBufW, srtII), ref, v.named(st, "bufw", w)))
 }
 func (v *Verifier) bufSetD(st *State, ref, d string) {
 	v.env.heapSet(st, gBufD, srtIII, sto(v.env.heapGet(st, gBufD, srtIII), ref, d))
@@ -213,7 +224,6 @@ func (v *Verifier) bufAppendSlice(st *State, b bufView, sl Value) {
 	st.assume("(forall ((k! Int)) (! (= (select " + nd + " k!) (ite (and (<= " + b.w + " k!) (< k! (+ " + b.w + " " + ln + "))) " + src + " (select " + b.d + " k!))) :pattern ((select " + nd + " k!))))")
 	v.bufSetD(st, b.ref, nd)
 	v.bufSetW(st, b.ref, add(b.w, ln))
-	st.addCand(b.w)
 }
 
 // bytesOfBuffer: if x is the result of other.Bytes() called immediately before instruction in (same
@@ -281,7 +291,6 @@ func init() {
 			}
 			v.bufSetD(st, ref, d)
 			v.bufSetW(st, ref, add(b.w, intLit(int64(n))))
-			st.addCand(b.w)
 			return Value{T: "VNil", Sort: "Val", GoT: errT}
 		}
 		if sl, ok := dt.Underlying().(*types.Slice); ok && isMI {
@@ -338,7 +347,6 @@ func init() {
 		nv.T = cst
 		v.storeAddr(st, p, nv, in)
 		v.bufSetR(st, ref, ite(okc, add(b.r, intLit(int64(n))), b.w))
-		st.addCand(b.r)
 		e := v.env.freshErr(st)
 		return Value{T: ite(okc, "VNil", e.T), Sort: "Val", GoT: errT}
 	}
@@ -362,7 +370,6 @@ func init() {
 			st.assume("(forall ((k! Int)) (! (= (select " + nd + " k!) (ite (and (<= " + b.w + " k!) (< k! (+ " + b.w + " " + ln + "))) " + from + " (select " + b.d + " k!))) :pattern ((select " + nd + " k!))))")
 			v.bufSetD(st, ref, nd)
 			v.bufSetW(st, ref, add(b.w, ln))
-			st.addCand(b.w)
 		} else {
 			v.bufAppendSlice(st, b, args[1])
 		}
@@ -389,14 +396,20 @@ func init() {
 		st.assume("(forall ((k! Int)) (! (= (select " + na + " k!) (ite (and (<= " + off + " k!) (< k! (+ " + off + " " + n + "))) " + src + " (select (select " + E + " " + sliceBase(dst.T) + ") k!))) :pattern ((select " + na + " k!))))")
 		v.env.heapSet(st, byteMap, srtIII, sto(E, sliceBase(dst.T), na))
 		v.bufSetR(st, ref, add(b.r, n))
-		st.addCand(b.r)
 		ioPkg := v.prog.typPkgs["io"]
 		eof := v.env.globalValue(st, "io", ioPkg.Scope().Lookup("EOF").(*types.Var))
 		tup := retT.(*types.Tuple)
 		errV := ite(and(eq(avail, "0"), "(> "+want+" 0)"), eof.T, "VNil")
 		return Value{Tuple: []Value{{T: n, Sort: "Int", GoT: tup.At(0).Type()}, {T: errV, Sort: "Val", GoT: tup.At(1).Type()}}, GoT: retT}
 	}
-	nativeMods["bytes.(*Buffer).Read"] = bufMods(byteMap)
+	readMods := func(v *Verifier, c *ssa.CallCommon, maps map[string]string) bool {
+		// reading moves the read position only (and fills the destination)
+		maps["G!bufver"] = srtII
+		maps[gBufR] = srtII
+		maps[byteMap] = srtIII
+		return false
+	}
+	nativeMods["bytes.(*Buffer).Read"] = readMods
 
 	nativeStubs["bytes.(*Buffer).Next"] = func(v *Verifier, st *State, in ssa.Instruction, c *ssa.CallCommon, args []Value, retT types.Type) Value {
 		ref := refOf(args[0])
@@ -415,10 +428,9 @@ func init() {
 		st.assume("(forall ((k! Int)) (! (=> (and (<= 0 k!) (< k! " + n + ")) (= (select " + na + " k!) (select " + b.d + " (+ " + b.r + " k!)))) :pattern ((select " + na + " k!))))")
 		v.env.heapSet(st, byteMap, srtIII, sto(E, nb, na))
 		v.bufSetR(st, ref, add(b.r, n))
-		st.addCand(b.r)
 		return Value{T: mkSlice(nb, "0", n, n), Sort: "Slice", GoT: retT}
 	}
-	nativeMods["bytes.(*Buffer).Next"] = bufMods(byteMap)
+	nativeMods["bytes.(*Buffer).Next"] = readMods
 
 	nativeStubs["bytes.(*Buffer).Len"] = func(v *Verifier, st *State, in ssa.Instruction, c *ssa.CallCommon, args []Value, retT types.Type) Value {
 		ref := refOf(args[0])
